@@ -228,7 +228,7 @@ func (r *Run) Finish(minEvents int) {
 
 	// group violations by signature -> one replay file per signature
 	bySig := map[string][]Violation{}
-	var sigs []string
+	sigs := []string{}
 	for _, v := range r.violations {
 		if _, ok := bySig[v.Signature]; !ok {
 			sigs = append(sigs, v.Signature)
@@ -252,7 +252,7 @@ func (r *Run) Finish(minEvents int) {
 		fmt.Printf("VIOLATION property=%s replay=%s\n", r.Prop, path)
 		fmt.Printf("  signature: %s\n  %s\n", sig, oneLine(vs[0].Message, 400))
 	}
-	var known []string
+	known := []string{}
 	for sig := range r.knownHit {
 		known = append(known, sig)
 	}
